@@ -85,7 +85,8 @@ Allowed(op, res) ==
       [] op.n = "Less"    -> res.ok = (op.a[1] < op.a[2])
       [] op.n = "Equal"   -> res.ok = (op.a[1] = op.a[2])
       [] op.n = "Enclose" -> res.ok = (AbsI(op.a[3]) >= op.a[1] /\ AbsI(op.a[3]) <= op.a[2])
-      [] op.n = "Range"      -> RangeOK(op.a, res, FALSE)
-      [] op.n = "RangeRight" -> RangeOK(op.a, res, TRUE)
+      \* (RangeU8 / RangeI8: the same calls on uint8 / int8 arguments whose progression stays inside the type)
+      [] op.n \in {"Range", "RangeU8", "RangeI8"} -> RangeOK(op.a, res, FALSE)
+      [] op.n \in {"RangeRight", "RangeRightU8"}  -> RangeOK(op.a, res, TRUE)
       [] OTHER -> FALSE
 =============================================================================
